@@ -15,3 +15,70 @@ package credentials
 //@   modifies *c, entries(c.attributes), entries(c.groupMembership)
 //@   trusted_frame attribute maps are written through helper methods
 //@   ensures c.cname == old(c.cname) && c.realm == old(c.realm) && c.validUntil == old(c.validUntil) && c.authenticated == old(c.authenticated) && c.authTime == old(c.authTime)
+
+// ---- property C15: credential cache files. The readers decode the octets at the cursor *p in the byte order *e
+// and advance the cursor; they have no error result, so "enough octets remain" is their precondition (a well-formed
+// file satisfies it at every call; that the parser does not check it for arbitrary files is a known finding of C04).
+//@ define cc_i16(b, o, e) := ite(tagof(*e) == typeid("encoding/binary.bigEndian"), int16(uint16(b[o]) << 8 | uint16(b[o+1])), int16(uint16(b[o+1]) << 8 | uint16(b[o])))
+//@ define cc_i32(b, o, e) := ite(tagof(*e) == typeid("encoding/binary.bigEndian"), int32(uint32(b[o]) << 24 | uint32(b[o+1]) << 16 | uint32(b[o+2]) << 8 | uint32(b[o+3])),
+//@     int32(uint32(b[o+3]) << 24 | uint32(b[o+2]) << 16 | uint32(b[o+1]) << 8 | uint32(b[o])))
+//@ func credentials.readInt8(b, p, e) (i)
+//@   requires 0 <= *p && *p <= len(b) - 1
+//@   modifies *p
+//@   ensures *p == old(*p) + 1 && i == int8(b[old(*p)])
+//@ func credentials.readInt16(b, p, e) (i)
+//@   requires 0 <= *p && *p <= len(b) - 2
+//@   modifies *p
+//@   ensures *p == old(*p) + 2 && i == cc_i16(b, old(*p), e)
+//@ func credentials.readInt32(b, p, e) (i)
+//@   requires 0 <= *p && *p <= len(b) - 4
+//@   modifies *p
+//@   ensures *p == old(*p) + 4 && i == cc_i32(b, old(*p), e)
+//@ func credentials.readBytes(b, p, s, e) (r)
+//@   requires 0 <= *p && s >= 0 && s <= 1073741824 && *p <= len(b) - s
+//@   modifies *p
+//@   ensures *p == old(*p) + s && len(r) == s && fresh(r)
+//@   ensures forall k int :: 0 <= k && k < s ==> r[k] == b[old(*p) + k]
+// counted octet string: 32-bit length, then that many octets
+//@ func credentials.readData(b, p, e) (r)
+//@   requires 0 <= *p && *p <= len(b) - 4 && cc_i32(b, *p, e) >= 0 && cc_i32(b, *p, e) <= 1073741824 && *p <= len(b) - 4 - int(cc_i32(b, *p, e))
+//@   modifies *p
+//@   ensures *p == old(*p) + 4 + int(cc_i32(b, old(*p), e)) && len(r) == int(cc_i32(b, old(*p), e)) && fresh(r)
+//@   ensures forall k int :: 0 <= k && k < len(r) ==> r[k] == b[old(*p) + 4 + k]
+// 32-bit signed seconds since the epoch (sign-extended)
+//@ func credentials.readTimestamp(b, p, e) (t)
+//@   requires 0 <= *p && *p <= len(b) - 4
+//@   modifies *p
+//@   ensures *p == old(*p) + 4 && t.Unix() == int64(cc_i32(b, old(*p), e))
+//@ func credentials.readAddress(b, p, e) (a)
+//@   requires 0 <= *p && *p <= len(b) - 6 && cc_i32(b, *p + 2, e) >= 0 && cc_i32(b, *p + 2, e) <= 1073741824 && *p <= len(b) - 6 - int(cc_i32(b, *p + 2, e))
+//@   modifies *p
+//@   ensures *p == old(*p) + 6 + int(cc_i32(b, old(*p) + 2, e)) && a.AddrType == int32(cc_i16(b, old(*p), e)) && len(a.Address) == int(cc_i32(b, old(*p) + 2, e))
+//@   ensures forall k int :: 0 <= k && k < len(a.Address) ==> a.Address[k] == b[old(*p) + 6 + k]
+//@ func credentials.readAuthDataEntry(b, p, e) (a)
+//@   requires 0 <= *p && *p <= len(b) - 6 && cc_i32(b, *p + 2, e) >= 0 && cc_i32(b, *p + 2, e) <= 1073741824 && *p <= len(b) - 6 - int(cc_i32(b, *p + 2, e))
+//@   modifies *p
+//@   ensures *p == old(*p) + 6 + int(cc_i32(b, old(*p) + 2, e)) && a.ADType == int32(cc_i16(b, old(*p), e)) && len(a.ADData) == int(cc_i32(b, old(*p) + 2, e))
+//@   ensures forall k int :: 0 <= k && k < len(a.ADData) ==> a.ADData[k] == b[old(*p) + 6 + k]
+
+// Lookups: by server principal (all components equal), filtering of configuration entries; the cache is only read
+// and the list returned is a new one.
+//@ func (*credentials.CCache).Contains(c, p) (r)
+//@   pure
+//@   ensures r <==> (exists i int :: 0 <= i && i < len(c.Credentials) && names_equal(c.Credentials[i].Server.PrincipalName, p))
+//@   loop 1 invariant -1 <= rangeindex && rangeindex < len(c.Credentials)
+//@   loop 1 invariant forall i int :: 0 <= i && i <= rangeindex ==> !names_equal(c.Credentials[i].Server.PrincipalName, p)
+//@ func (*credentials.CCache).GetEntry(c, p) (cred, ok)
+//@   pure
+//@   ensures cred != nil
+//@   ensures ok ==> exists i int :: 0 <= i && i < len(c.Credentials) && cred == c.Credentials[i] && names_equal(c.Credentials[i].Server.PrincipalName, p)
+//@        && (forall j int :: 0 <= j && j < i ==> !names_equal(c.Credentials[j].Server.PrincipalName, p))
+//@   ensures !ok ==> forall i int :: 0 <= i && i < len(c.Credentials) ==> !names_equal(c.Credentials[i].Server.PrincipalName, p)
+//@   loop 1 invariant -1 <= rangeindex && rangeindex < len(c.Credentials) && !found
+//@   loop 1 invariant forall i int :: 0 <= i && i <= rangeindex ==> !names_equal(c.Credentials[i].Server.PrincipalName, p)
+//@ func (*credentials.CCache).GetEntries(c) (r)
+//@   pure
+//@   ensures len(r) <= len(c.Credentials) && (len(r) > 0 ==> fresh(r))
+//@   ensures forall k int :: 0 <= k && k < len(r) ==> exists i int :: 0 <= i && i < len(c.Credentials) && r[k] == c.Credentials[i]
+//@   loop 1 invariant -1 <= rangeindex && rangeindex < len(c.Credentials) && len(creds) <= rangeindex + 1 && fresh(creds)
+//@   loop 1 invariant forall k int :: 0 <= k && k < len(creds) ==> exists i int :: 0 <= i && i <= rangeindex && creds[k] == c.Credentials[i]
